@@ -40,6 +40,7 @@ Extraction "../ocaml/model.ml"
   CodeCheck.code_have_always CodeCheck.model_have_always CodeCheck.code_have_never CodeCheck.model_have_never
   CodeCheck.code_remove_never CodeCheck.model_remove_never CodeCheck.code_after_use CodeCheck.model_after_use
   CodeCheck.code_succ CodeCheck.model_succ
+  CodeCheck.code_declare CodeCheck.model_declare CodeCheck.code_tally CodeCheck.model_tally
   CodeCheck.code_walk CodeCheck.model_walk CodeCheck.code_walk_named CodeCheck.model_walk_named
   Facts.verdict_suite Facts.verdict_single Facts.rk_text Facts.rk_cute Facts.rk_xml
   Facts.rk_libxml Facts.rk_cdash Facts.msg_codes.
